@@ -1528,12 +1528,12 @@ def transition(w, opname, xname, r, stats):
         cell = f"{cellbase}/value/{dtclass(kx)}"
         if exc is not None:
             r.fail(cell, "image arithmetic agrees element-wise with the same arithmetic on the raw arrays for every documented scalar type (it raised instead)",
-                   op=opname, operand=xname, operand_kind=list(kx), exception=repr(exc), expected_dtype=str(c.ref.dtype))
+                   op=opname, operand=xname, operand_kind=list(kx), history=w.hist, exception=repr(exc), expected_dtype=str(c.ref.dtype) if c.ref is not None else None)
         else:
             got = getattr(res, "img", None)
-            ok = isinstance(got, np.ndarray) and got.shape == c.ref.shape and np.array_equal(got, c.ref)
-            r.check(ok, cell, "image arithmetic agrees element-wise with the same arithmetic on the raw arrays", op=opname, operand=xname, operand_kind=list(kx),
-                    got=got, want=c.ref)
+            ok = isinstance(got, np.ndarray) and got.shape == c.ref.shape and np.array_equal(got, c.ref, equal_nan=_numeric(kx))
+            r.check(ok, cell, "image arithmetic agrees element-wise with the same arithmetic on the raw arrays (NaN == NaN)", op=opname, operand=xname,
+                    operand_kind=list(kx), history=w.hist, got=got, want=c.ref)
     elif exc is not None:
         r.fail(f"{cellbase}/crash/{kl}/{dtclass(kx) if kx.what != 'none' else 'none'}", "a call form inside the guards returns (no exception escapes)", op=opname, operand=xname, operand_kind=list(kx),
                history=w.hist, exception=f"{type(exc).__name__}: {exc}")
